@@ -5,13 +5,20 @@ namespace Driver.Suites.Access
 open Lean Driver SaModel SaModel.Access
 
 /-- a request of the harness: one model operation, or a PROVIDED `Iterator` method, which std defines through `next`
-(`nth(n)` = `n + 1` calls of `next`, the last one's result; `by_ref().count()` = calls of `next` until `None`, the
-number of items) and which is therefore replayed on the model as that many `iterNext` steps — the iterator is fused, so
+(`nth(n)` = `n + 1` calls of `next`, the last one's result; `count()` = calls of `next` until `None`, the number of
+items; the harness calls `count` / `last` BY VALUE and refills the slot with an exhausted iterator) and which is therefore replayed on the model as that many `iterNext` steps — the iterator is fused, so
 calls after the end change nothing -/
 inductive Req where
   | one (op : Op)
   | nth (k n : Nat)
   | count (k : Nat)
+  | last (k : Nat)          -- provided `Iterator::last`: calls of `next` until `None`, the last item seen
+  | collectRev              -- a fresh iterator collected, the items deserialized afterwards in reverse order
+  | top (how : String)      -- the `Deserializer` itself through one `serde::Deserializer` method
+
+/-- the methods of `impl serde::Deserializer for Deserializer` that present the records as a sequence (deserializer.rs:
+`deserialize_seq`, `_tuple`, `_tuple_struct`, `_any`, `_newtype_struct`); `ignored` consumes them; all others refuse -/
+def topIsSeq (how : String) : Bool := ["seq", "tuple", "tuple_struct", "any", "newtype"].contains how
 
 def parseOp (j : Json) : Except String Op := do
   let k ← getStr j "op"
@@ -29,6 +36,9 @@ def parseReq (j : Json) : Except String Req := do
   match (← getStr j "op") with
   | "iter_nth" => pure (.nth (← getNat j "k") (← getNat j "n"))
   | "iter_count" => pure (.count (← getNat j "k"))
+  | "iter_last" => pure (.last (← getNat j "k"))
+  | "collect_rev" => pure .collectRev
+  | "top" => pure (.top (← getStr j "how"))
   | _ => pure (.one (← parseOp j))
 
 def Req.name : Req → String
@@ -37,12 +47,17 @@ def Req.name : Req → String
     | .iterNext _ => "iter_next" | .iterHint _ => "iter_hint" | .bulk => "bulk"
   | .nth _ _ => "iter_nth"
   | .count _ => "iter_count"
+  | .last _ => "iter_last"
+  | .collectRev => "collect_rev"
+  | .top how => s!"top:{if topIsSeq how then how else if how == "ignored" then how else "refused"}"
 
 /-- the model operations a request stands for (`len` bounds the `count` replay: `len + 1` calls reach the end) -/
 def Req.expand (len : Nat) : Req → List Op
   | .one op => [op]
   | .nth k n => List.replicate (n + 1) (.iterNext k)
-  | .count k => List.replicate (len + 1) (.iterNext k)
+  | .count k | .last k => List.replicate (len + 1) (.iterNext k)
+  | .collectRev => [.bulk]            -- reading every item of a fresh iterator = the bulk read, here in reverse
+  | .top how => if topIsSeq how then [.bulk] else []
 
 /-- fold the outputs of the expansion back into the one output the request has -/
 def Req.collapse : Req → List Out → Out
@@ -51,6 +66,16 @@ def Req.collapse : Req → List Out → Out
   | .count _, outs =>
     if outs.any (fun o => match o with | .noSuchIter => true | _ => false) then .noSuchIter
     else .n (outs.filter (fun o => match o with | .item (some _) => true | _ => false)).length
+  | .last _, outs =>
+    if outs.any (fun o => match o with | .noSuchIter => true | _ => false) then .noSuchIter
+    else ((outs.filter (fun o => match o with | .item (some _) => true | _ => false)).getLast?).getD (.item none)
+  | .collectRev, outs => match outs.headD .unit with
+    | .items l => .items l.reverse
+    | o => o
+  | .top how, outs =>
+    if topIsSeq how then outs.headD .unit
+    else if how == "ignored" then .unit
+    else .b true                      -- "was refused with an error"
 
 def collapseAll (len : Nat) : List Req → List Out → List Out
   | [], _ => []
